@@ -149,6 +149,8 @@ Lemma plain_gt : forall c, plain_char c = true -> 32 <? c = true.
 Proof. intros c. unfold plain_char. lia. Qed.
 Lemma auth_plain : forall c, auth_char c = true -> plain_char c = true.
 Proof. intros c. unfold auth_char. lia. Qed.
+Lemma auth_ascii : forall c, auth_char c = true -> c <? 128 = true.
+Proof. intros c. unfold auth_char. lia. Qed.
 Lemma query_gt : forall c, query_char c = true -> 32 <? c = true.
 Proof. intros c. unfold query_char. lia. Qed.
 
@@ -273,7 +275,7 @@ Proof.
       assert (mem 93 a = false) as -> by (eapply (mem_false_forall auth_char); eauto).
       cbn [xorb andb].
       assert (is_ascii a = true) as ->.
-      { unfold is_ascii. eapply forallb_impl; [|exact Hauth]. intros x. unfold auth_char. lia. }
+      { unfold is_ascii. eapply forallb_impl; [|exact Hauth]. apply auth_ascii. }
       cbn [negb andb].
       specialize (TAIL [] eq_refl eq_refl). cbn [app] in TAIL.
       destruct (match split1 35 (path ++ opt_pre 63 q ++ opt_pre 35 f) with Some p => p | None => _ end) as [url4 frag].
@@ -290,11 +292,42 @@ Proof.
     cbn [app].
     assert (S2 : starts_with2 47 47 (path ++ opt_pre 63 q ++ opt_pre 35 f) = false).
     { apply starts_with2_app_false; [now apply negb_true_iff in Hshape|].
-      destruct q as [x|]; simpl; [right; eexists _, _; split; [reflexivity|lia]|].
-      destruct f as [y|]; simpl; [right; eexists _, _; split; [reflexivity|lia]|left; reflexivity]. }
+      destruct q as [x|]; cbn [opt_pre app]; [right; eexists _, _; split; [reflexivity|discriminate]|].
+      destruct f as [y|]; cbn [opt_pre app]; [right; eexists _, _; split; [reflexivity|discriminate]|left; reflexivity]. }
     rewrite S2. cbn [mem existsb xorb andb is_ascii forallb negb].
     specialize (TAIL [] eq_refl eq_refl). cbn [app] in TAIL.
     destruct (match split1 35 (path ++ opt_pre 63 q ++ opt_pre 35 f) with Some p => p | None => _ end) as [url4 frag].
     destruct (match split1 63 url4 with Some p => p | None => _ end) as [pth qq].
     injection TAIL as -> -> ->. reflexivity.
+Qed.
+
+(* ================================================================ the RFC 3986 rule on URI records *)
+Lemma wf_uri_parts : forall u, wf_uri u = true ->
+  u_parts u <> [] /\ Forall (fun p => mem 47 p = false) (u_parts u).
+Proof.
+  intros u H. unfold wf_uri in H. repeat (apply andb_prop in H as [H ?]).
+  split.
+  - destruct (u_parts u); [discriminate|congruence].
+  - apply Forall_forall. intros p Hp. rewrite forallb_forall in H3. specialize (H3 p Hp).
+    eapply mem_false_forall; eauto.
+Qed.
+
+Lemma split_path_parts : forall u, wf_uri u = true -> split_on 47 (u_path u) = u_parts u.
+Proof. intros u H. destruct (wf_uri_parts u H). unfold u_path. now apply split_on_join. Qed.
+
+Theorem rfc_on_records : forall M fixed (badf : bytes -> bool) mb u1 u2,
+  wf_uri u1 = true -> wf_uri u2 = true -> is_rfc M mb = true ->
+  (match_scope M fixed (fun s => urlsplit (badf s) s) mb (render u1) (render u2) = Ret true <->
+   lower_s (u_scheme u1) = lower_s (u_scheme u2) /\
+   lower_s (opt_val (u_auth u1)) = lower_s (opt_val (u_auth u2)) /\
+   is_prefix (decoded_parts u1) (decoded_parts u2)).
+Proof.
+  intros M fixed badf mb u1 u2 H1 H2 Hmb. rewrite match_scope_rfc by auto. rewrite match_rfc_spec.
+  unfold rfc_spec. rewrite !urlsplit_render by auto. unfold decoded_parts.
+  rewrite <- (split_path_parts u1 H1), <- (split_path_parts u2 H2). split.
+  - intros (sa & na & pa & qa & fa & sb & nb & pb & qb & fb & E1 & E2 & A & B & C).
+    injection E1 as <- <- <- <- <-. injection E2 as <- <- <- <- <-.
+    rewrite !lower_s_idem in A. auto.
+  - intros (A & B & C). do 10 eexists. split; [reflexivity|]. split; [reflexivity|].
+    rewrite !lower_s_idem. auto.
 Qed.
